@@ -3,6 +3,8 @@
 -/
 import IcontractModel.Lemmas.Instances
 import IcontractModel.Spec.Trace
+import IcontractModel.Lemmas.State
+import IcontractModel.Lemmas.Errors
 namespace Icontract
 open Res
 
@@ -15,7 +17,7 @@ the call equals the set before it — whatever the outcome (return, violation, a
 theorem C11_state_restored (ck : Checker) (o : Oracle) (s : IdSet) (call : Call)
     (hs : s.contains ck.fid = false) :
     (callSync ck o s call).2 = s ∧ (callAsync ck o s call).2 = s := by
-  sorry
+  exact ⟨callSync_state ck o s call hs, callAsync_state ck o s call hs⟩
 
 /-- Lifted to histories: after any sequence of (possibly faulted) calls of checkers that are not in
 progress, the state is the initial one, so a probe call behaves as in a fresh context. -/
@@ -23,13 +25,17 @@ theorem C11_state_restored_after_history (calls : List (Checker × Oracle × Cal
     (hs : ∀ x ∈ calls, s.contains x.1.fid = false) :
     calls.foldl (fun st x => (callSync x.1 x.2.1 st x.2.2).2) s = s ∧
     calls.foldl (fun st x => (callAsync x.1 x.2.1 st x.2.2).2) s = s := by
-  sorry
+  constructor
+  · exact foldl_state_fixed _ s calls (fun x hx => callSync_state x.1 x.2.1 s x.2.2 (hs x hx))
+  · exact foldl_state_fixed _ s calls (fun x hx => callAsync_state x.1 x.2.1 s x.2.2 (hs x hx))
 
 /-- the verdict of a call does not depend on the in-progress ids of other functions -/
 theorem C11_probe_independent_of_foreign_ids (ck : Checker) (o : Oracle) (s s' : IdSet) (call : Call)
     (hs : s.contains ck.fid = false) (hs' : s'.contains ck.fid = false) :
     (callSync ck o s call).1 = (callSync ck o s' call).1 ∧ (callAsync ck o s call).1 = (callAsync ck o s' call).1 := by
-  sorry
+  constructor
+  · rw [callSync_result ck o s call hs, callSync_result ck o s' call hs']
+  · rw [callAsync_result ck o s call hs, callAsync_result ck o s' call hs']
 
 /-- **No lost error, conditions**: whatever a precondition evaluation raises is either a library
 error about the contract's arguments/coroutine-ness, the very exception object the condition raised,
@@ -41,7 +47,7 @@ theorem C11_sync_condition_error_surfaces (o : Oracle) (kw : Kwargs) (c : Contra
     (∃ e, o.cond c.id = .raises e ∧ r = .user e) ∨
     (∃ v e, o.cond c.id = .val v (.raises e) ∧
       ((e.isException = true ∧ r = .valueErr (.negateFailed c.id) (some e)) ∨ (e.isException = false ∧ r = .user e))) := by
-  sorry
+  exact evalPreSync_error o kw c r h
 
 theorem C11_async_condition_error_surfaces (o : Oracle) (kw : Kwargs) (c : Contract) (r : Raised)
     (h : (evalCondAsync o kw c).out = .error r) :
@@ -49,7 +55,7 @@ theorem C11_async_condition_error_surfaces (o : Oracle) (kw : Kwargs) (c : Contr
     (∃ e, (o.cond c.id = .raises e ∨ o.cond c.id = .coro (.raises e)) ∧ r = .user e) ∨
     (∃ v e, (o.cond c.id = .val v (.raises e) ∨ o.cond c.id = .coro (.val v (.raises e))) ∧
       ((e.isException = true ∧ r = .valueErr (.negateFailed c.id) (some e)) ∨ (e.isException = false ∧ r = .user e))) := by
-  sorry
+  exact evalCondAsync_error o kw c r h
 
 /-- **No lost error, error creation**: building the violation error either yields the contract's
 error, or surfaces the factory's / message generation's own exception (as that very object, or as
@@ -59,13 +65,13 @@ theorem C11_error_creation_error_surfaces (o : Oracle) (c : Contract) (kw : Kwar
     (∃ k, r = .typeErr k) ∨ r = .notImplemented c.id ∨
     (∃ e, o.fac c.id = .raises e ∧ r = .user e) ∨
     (∃ e, o.msg c.id = .raises e ∧ (r = .user e ∨ (e.isException = true ∧ r = .runtimeErr c.id e))) := by
-  sorry
+  exact createViolationError_error o c kw r h
 
 /-- **No lost error, body**: an exception raised by the body is the outcome of the checked path
 whenever the body is reached (already C02), and an exception raised by a capture surfaces as itself. -/
 theorem C11_capture_error_surfaces (o : Oracle) (kw : Kwargs) (acc : List (String × Id)) (ss : List Snapshot) (r : Raised)
     (h : (captureOldSync o kw acc ss).out = .error r) :
     (∃ k, r = .typeErr k) ∨ (∃ k, r = .valueErr k none) ∨ (∃ s ∈ ss, ∃ e, o.capture s.id = .raises e ∧ r = .user e) := by
-  sorry
+  exact captureOldSync_error o kw acc ss r h
 
 end Icontract
